@@ -101,9 +101,32 @@ func c11Decode(w *rt.W, data []byte) (accepted bool) {
 }
 
 func c11DecodeInto(w *rt.W, data []byte, before date.Date) (accepted bool) {
-	recv := before
-	in := append([]byte(nil), data...)
-	err := recv.UnmarshalBinary(in)
+	// the record sits at every offset of an 8-byte word (cut from a larger buffer) and the receiver at both alignments a
+	// 4-byte-aligned 8-byte struct can have (a field behind an int32): word-wise loads, 64-bit atomics on 32-bit platforms
+	sum := 0
+	for i, b := range data {
+		if i >= 64 {
+			break
+		}
+		sum += int(b)
+	}
+	backing := make([]byte, len(data)+16)
+	off := sum % 8
+	in := backing[off : off+len(data) : off+len(data)]
+	copy(in, data)
+	var holder struct {
+		ID   int32
+		R    date.Date
+		Pad  int32
+		R2   date.Date
+	}
+	holder.R, holder.R2 = before, before
+	rp := &holder.R
+	if sum/8%2 == 1 {
+		rp = &holder.R2
+	}
+	err := rp.UnmarshalBinary(in)
+	recv := *rp
 	w.Eval(1)
 	fail := func(key, got, want string) {
 		w.Fail(key, "decode", rt.Args("data", data, "receiver", before.String()), got, want, "UnmarshalBinary outcome violates strictness / real-calendar-date requirement")
